@@ -25,12 +25,16 @@ type hbScript struct {
 	v3pings []int // v3: instants at which the client sends a ping
 	sendAt  int   // an application Send at this instant (0 = none)
 	msgAt   []int // the client submits an ordinary message at these instants (no heartbeat meaning)
+	upgradeFirst bool // the (polling) session is upgraded to websocket by a conformant client at t=0, before the grid starts
 }
 
 func (h hbScript) id() string {
 	m := ""
 	if len(h.msgAt) > 0 {
 		m = fmt.Sprintf(" msg@%v", h.msgAt)
+	}
+	if h.upgradeFirst {
+		m += " upgraded@0"
 	}
 	if h.v3 {
 		return fmt.Sprintf("%s v3 I=%d T=%d pings@%v%s", h.kind, h.I, h.T, h.v3pings, m)
@@ -158,7 +162,11 @@ func refV3(h hbScript, horizon int) map[string]bool {
 		}
 		rec(deadline, idx, t+1, pongs)
 	}
-	rec(h.I+h.T, 0, 0, nil)
+	first := h.I + h.T
+	if h.upgradeFirst {
+		first = -1 // the upgrade cancels the pending deadline; the next client ping arms a new one
+	}
+	rec(first, 0, 0, nil)
 	return out
 }
 
@@ -178,6 +186,30 @@ func hbBody(h hbScript) vsched.Body {
 		s := openSessionEIO(x, w, kind, h.v3)
 		if s == nil {
 			return
+		}
+		if h.upgradeFirst && s.pc != nil {
+			// conformant upgrade at t=0 (no poll pending), default schedule
+			x.Frozen = true
+			eio := 4
+			if h.v3 {
+				eio = 3
+			}
+			cand := w.DialWS(eio, s.pc.Sid, false, false, "")
+			x.Settle()
+			if !cand.Ready() {
+				x.Fail("setup: upgrade candidate refused (%s)", h.id())
+				return
+			}
+			vsched.GoNamed("upgrader", func() { cand.SendPkt(Pkt{Type: '2', Data: []byte("probe")}) })
+			x.Settle()
+			vsched.GoNamed("upgrader", func() { cand.SendPkt(Pkt{Type: '5'}) })
+			x.Settle()
+			x.Frozen = false
+			if !s.rec.Sock.Upgraded() {
+				x.Fail("setup: upgrade did not complete (%s)", h.id())
+				return
+			}
+			s.ws, s.pc = cand, nil
 		}
 		var wire []int // instants at which the client saw a ping (v4) / a pong (v3)
 		now := func() int { return int(x.Now() / hbUnit) }
@@ -207,7 +239,7 @@ func hbBody(h hbScript) vsched.Body {
 				}
 				k++
 			}
-			if h.v3 && p.Type == '3' {
+			if h.v3 && p.Type == '3' && string(p.Data) != "probe" {
 				wire = append(wire, now())
 			}
 		}
@@ -358,6 +390,13 @@ func init() {
 					}
 				}
 				out = append(out, hbScript{I: I, T: T, kind: kind, v3: true})
+				if kind == "polling" {
+					// the heartbeat goes on after an upgrade
+					out = append(out, hbScript{I: I, T: T, kind: kind, v3: true, v3pings: []int{1}, upgradeFirst: true})
+					out = append(out, hbScript{I: I, T: T, kind: kind, v3: true, v3pings: []int{1, I + T}, upgradeFirst: true})
+					out = append(out, hbScript{I: I, T: T, kind: kind, delays: []int{0, -1}, upgradeFirst: true})
+					out = append(out, hbScript{I: I, T: T, kind: kind, delays: []int{-1}, upgradeFirst: true})
+				}
 				// ordinary client traffic does not count as a heartbeat
 				out = append(out, hbScript{I: I, T: T, kind: kind, v3: true, v3pings: []int{1}, msgAt: []int{2}})
 				out = append(out, hbScript{I: I, T: T, kind: kind, v3: true, v3pings: []int{1}, msgAt: []int{I + T}})
@@ -444,5 +483,55 @@ func init() {
 			}
 		}
 		c.Res.Distinct = int64(n)
+	})
+}
+
+// a session that is closing gracefully with data still buffered and a client that never polls
+// again is ended by the next heartbeat deadline, exactly
+func init() {
+	register("C07", "closing-silent", false, func(c *Ctx) {
+		n := 0
+		for _, cfg := range [][2]int{{2, 1}, {3, 2}, {2, 3}} {
+			for _, eio := range []int{4, 3} {
+				I, T, eio := cfg[0], cfg[1], eio
+				n++
+				id := fmt.Sprintf("closing-silent I=%d T=%d eio=%d", I, T, eio)
+				c.ExploreDev(id, Pick(c, 1, 2), Pick(c, 3, 5), func(x *vsched.Exec) {
+					o := config.DefaultServerOptions()
+					o.SetPingInterval(time.Duration(I) * hbUnit)
+					o.SetPingTimeout(time.Duration(T) * hbUnit)
+					o.SetAllowEIO3(true)
+					w := NewWorld(x, o)
+					kind := "polling"
+					if eio == 3 {
+						kind = "polling3"
+					}
+					s := openSession(x, w, kind, false)
+					if s == nil {
+						return
+					}
+					vsched.GoNamed("app", func() {
+						vsched.Sleep(hbUnit)
+						s.rec.Sock.Send(types.NewStringBufferString("buffered"), nil, nil)
+						s.rec.Sock.Close(false)
+					})
+					x.Run(12 * hbUnit)
+					want := time.Duration(I+T) * hbUnit
+					cr := s.rec.CloseReasons()
+					if len(cr) != 1 {
+						x.Fail("closing-never-ended[eio%d]: %d close events by t=%v, state %s (%s)", eio, len(cr), x.Now(), s.rec.Sock.ReadyState(), id)
+						return
+					}
+					for _, e := range s.rec.Events {
+						if e.Name == "close" && (e.At != want || e.Arg != "ping timeout") {
+							x.Fail("closing-deadline[eio%d]: closed at %v with %q, expected the heartbeat deadline %v with ping timeout (%s)", eio, e.At, e.Arg, want, id)
+						}
+					}
+					x.Outcome = fmt.Sprint(cr)
+				})
+			}
+		}
+		c.Res.Distinct = int64(n)
+		c.Note("a polling session with no poll pending: Send + Close(false) at t=1, the client never polls again; the session must end exactly at the heartbeat deadline (I+T) with ping timeout")
 	})
 }
